@@ -20,6 +20,10 @@ CHECKS = {
    "Coq theorems (Props/C03.v): for every history, get_latest_version on the tables is a_latest of the abstract entry (C03_latest_of_history, via the C08 refinement); the cached 'latest' tag wins; the answer is always a cached tag or a stored string; without a tag it is parsable, not a prerelease when prereleases are ignored, and no stored admissible version is greater in the (proved total) order of semver::Version; it is independent of order/batching/repetition of the stores up to spellings of one version, and of every other key. Tied to the code by the cache history stream (model vs real Cache, raw tables), a latest-oracle evaluated in Coq on every latest read of the implementation, and a stream validating Lib.SemVer / parse_version / the bump calculators against the semver crate.",
    "Trusted: as C08, plus Lib.SemVer as a model of the third-party semver crate (parse, derived Ord with build metadata, Display), correspondence-checked.",
    "DESIGN.md section 8 C03"),
+ "C01": ("proof",
+   "Coq theorems (Props/C01.v): for every database state (hence, by C08, after every history / fill order), every matcher satisfying the matcher contract and every spec string, the diagnostic computed by the model of compare_version + create_diagnostic is the decision table of Spec/Verdict.v applied to the facts (cached latest, tag resolution, well-known tag, well-formedness, some-inside, latest-inside, anchor below latest); the contract is proved for the npm/pnpm/JSR, Cargo and GitHub Actions matchers; corollaries: Invalid beats NotFound, unresolved well-known tags and uncached packages are silent, a failed read yields nothing, messages quote the spec as written. The text of compare_version / create_diagnostic / generate_diagnostics and the tag list are regenerated and pinned. Tied to the code by a stream that fills a real Cache in random batch orders and runs the real generate_diagnostics (model vs implementation), plus an oracle evaluating the table with the reference range semantics of C02.",
+   "Trusted: as C02/C03/C08; ecosystem-level facts of the oracle come from the C02 reference semantics; Go and PyPI matcher contracts are covered by correspondence only. Open finding C01-marked-nonexistent-still-judged.",
+   "DESIGN.md section 8 C01"),
 }
 props = [json.loads(l)['id'] for l in open(os.path.join(HERE, 'properties.jsonl'))]
 checks = []
